@@ -161,6 +161,27 @@ func ioFaults(r *Run) {
 		faults []simdisk.Fault
 		desc   string
 	}
+	// faults are addressed by (kind of call, path, n-th such call): stable
+	// even if the code under test issues its calls in another order
+	addrOf := func(i int) (string, int) {
+		a := base.Log[i]
+		key := a.Resolved
+		if a.Op == 'G' {
+			key = a.Path
+		}
+		occ := 0
+		for j := 0; j <= i; j++ {
+			b := base.Log[j]
+			kb := b.Resolved
+			if b.Op == 'G' {
+				kb = b.Path
+			}
+			if b.Op == a.Op && kb == key {
+				occ++
+			}
+		}
+		return key, occ
+	}
 	var plans []inj
 	for i, a := range base.Log {
 		for _, k := range kindsFor(a.Op) {
@@ -185,7 +206,8 @@ func ioFaults(r *Run) {
 			// which error value the failing call hands back (a plain errno,
 			// another errno, the io package's sentinel errors, wrapped or not)
 			style := t.Pick([]int{5, 1, 1, 1}, "error-style")
-			plans = append(plans, inj{[]simdisk.Fault{{Index: i, Kind: k, Keep: keep, ErrStyle: style}}, fmt.Sprintf("call %d (%c %s) kind=%s keep=%d errstyle=%d", i, a.Op, a.Path, k, keep, style)})
+			key, occ := addrOf(i)
+			plans = append(plans, inj{[]simdisk.Fault{{Path: key, Op: a.Op, Occ: occ, Kind: k, Keep: keep, ErrStyle: style}}, fmt.Sprintf("call %d (%c %s) kind=%s keep=%d errstyle=%d", i, a.Op, a.Path, k, keep, style)})
 		}
 	}
 	single := len(plans)
@@ -211,7 +233,9 @@ func ioFaults(r *Run) {
 			kb := kindsFor(b.Op)
 			k1 := ka[t.Draw(len(ka), "pair-kind-a")]
 			k2 := kb[t.Draw(len(kb), "pair-kind-b")]
-			plans = append(plans, inj{[]simdisk.Fault{{Index: pr[0], Kind: k1, Keep: a.N / 2}, {Index: pr[1], Kind: k2, Keep: b.N / 2}},
+			pa, oa := addrOf(pr[0])
+			pb, ob := addrOf(pr[1])
+			plans = append(plans, inj{[]simdisk.Fault{{Path: pa, Op: a.Op, Occ: oa, Kind: k1, Keep: a.N / 2}, {Path: pb, Op: b.Op, Occ: ob, Kind: k2, Keep: b.N / 2}},
 				fmt.Sprintf("pair: call %d (%c) %s + call %d (%c) %s", pr[0], a.Op, k1, pr[1], b.Op, k2)})
 		}
 		r.Probe("pair-of-faults")
